@@ -410,7 +410,11 @@ func (p *CodeBuilder) Slice(slice3 bool, src ...ast.Node) *CodeBuilder { // a[i:
 	args := p.stk.GetArgs(n)
 	x := args[0]
 	typ := x.Type
-	switch t := typ.(type) {
+	ut := types.Unalias(typ)
+	if named, ok := ut.(*types.Named); ok {
+		ut = p.getUnderlying(named) // a defined slice or string type keeps its type when sliced
+	}
+	switch t := ut.(type) {
 	case *types.Slice:
 		// nothing to do
 	case *types.Basic:
@@ -432,6 +436,9 @@ func (p *CodeBuilder) Slice(slice3 bool, src ...ast.Node) *CodeBuilder { // a[i:
 			code, pos, end := p.loadExpr(x.Src)
 			p.panicCodeErrorf(pos, end, "cannot slice %s (type %v)", code, typ)
 		}
+	default:
+		code, pos, end := p.loadExpr(x.Src)
+		p.panicCodeErrorf(pos, end, "cannot slice %s (type %v)", code, typ)
 	}
 	var exprMax ast.Expr
 	if slice3 {
